@@ -320,10 +320,31 @@ class World:
             else:
                 se.mbuf.extend(data)
                 units, rest, flag = ber.frame_units(se.mbuf)
+                doomed = None
+                if self.init.get("invalid_units"):
+                    # what follows the last complete unit may already be recognisably invalid before it is complete: an
+                    # indefinite length, or a complete header that is not a SEQUENCE - a receiver may (and this one does) fail now
+                    if flag == "indefinite":
+                        doomed, flag = "indefinite length", None
+                    elif rest < len(se.mbuf):
+                        try:
+                            c0, k0, n0, _h0, _l0 = ber.read_header(se.mbuf, rest)
+                            if (c0, k0, n0) != (ber.UNIVERSAL, True, 16):
+                                doomed = "outer tag is not SEQUENCE"
+                        except (ber.Incomplete, ber.Indefinite):
+                            pass
                 try:
                     if flag:
                         raise ber.Malformed(flag)
-                    lights = [rfc4511.light(se.mbuf, a, b) for a, b in units]
+                    lights = []
+                    for a, b in units:
+                        try:
+                            lights.append(rfc4511.light(se.mbuf, a, b))
+                        except ber.Malformed as e:
+                            if not self.init.get("invalid_units"):
+                                raise
+                            # a byzantine peer may send a complete unit that is not an LDAPMessage at all: invalid payload
+                            lights.append({"id": None, "kind": None, "tag": None, "code": None, "name": None, "invalid": str(e)})
                 except ber.Malformed as e:
                     if not self.init.get("real_stream"):
                         raise HarnessError("model cannot read a stream that should be well-formed: %s" % e)
@@ -335,6 +356,10 @@ class World:
                 if lights is not None:
                     del se.mbuf[:rest]
                     expect = se.model.recv_expect(lights)
+                    if doomed and expect[0] == "ok":
+                        # failing right away and failing when the unit is complete are both fine
+                        expect = ("either", expect[1])
+                        ev["doomed"] = doomed
         ev["expect"] = expect
         ev["lights"] = lights
         # --- the real call
@@ -391,6 +416,10 @@ class World:
                 if se.model.st != "CL":
                     se.model.recv_commit(lights, raised=not ev["ok"])
                 ev["state_sync"] = se.model.state_ok(ev["st_after"])
+            elif self.init.get("follow") and verdict == "error" and ev["ok"] and se.model.st != "CL":
+                se.model.closed_by_error()
+                ev["followed_error"] = True
+                ev["state_sync"] = True
             elif self.init.get("follow") and verdict == "ok" and se.model.st != "CL" and ev["st_after"] != "CLOSED":
                 # "follow" mode (C10, C08): the implementation mishandled a delivery that the documented protocol accepts
                 # (wrong number of messages, a foreign exception) but is still open.  The model keeps tracking what the PEER
